@@ -132,3 +132,62 @@ func (c *Ctx) writePrimitives(prop string) {
 		c.info("write-primitives", 0, "no write operation of this property in the table")
 	}
 }
+
+// missingUnwrapped: routers, caches and failover groups recognise "this store does not have the
+// chunk" by the concrete error type (err.(ChunkMissing), err.(NoSuchObject)).  Wherever such a
+// value is constructed, it must reach the function's return unwrapped - errors.Wrap around it
+// turns a miss into a store failure: the router stops instead of asking the next store, the
+// failover group switches members, the cache is never filled.
+func (c *Ctx) missingUnwrapped() {
+	n := 0
+	for _, fn := range c.libFuncs() {
+		if fn.Signature.Results().Len() == 0 || fn.Blocks == nil {
+			continue
+		}
+		builds := false
+		instrs(fn, func(_ *ssa.BasicBlock, _ int, ins ssa.Instruction) {
+			if mi, ok := ins.(*ssa.MakeInterface); ok && ins.Parent() == fn {
+				if cls := classOfType(mi.X.Type()); cls == ClsMissing || cls == ClsNoObject {
+					builds = true
+				}
+			}
+		})
+		if !builds || errResultOfFunc(fn) < 0 {
+			continue
+		}
+		n++
+		var bad []string
+		h := &Hooks{MaxVisits: 2, MaxPaths: 50000, NoAutoInline: false}
+		h.Return = func(st *State, ret *ssa.Return, results []Val) {
+			for i, r := range ret.Results {
+				if isErrorType(r.Type()) && (results[i].Sym == "wrapped:"+ClsMissing || results[i].Sym == "wrapped:"+ClsNoObject) {
+					bad = append(bad, fmt.Sprintf("return at %s yields the miss wrapped in another error (trail %s)", c.pos(ret.Pos()), strings.Join(st.Trail, ">")))
+				}
+			}
+		}
+		Explore(fn, fn.Blocks[0], 0, nil, NewState(), h)
+		c.paths += h.Paths
+		key := fnKey(fn) + ":missing-unwrapped"
+		switch {
+		case h.Truncated:
+			c.bad(key, fn.Pos(), "path exploration truncated")
+		case len(bad) > 0:
+			c.bad(key, fn.Pos(), "a ChunkMissing/NoSuchObject built here is wrapped before it is returned: callers that test the concrete type (router, cache, failover, repair) take the miss for a store failure: %s", bad[0])
+		default:
+			c.ok(key, fn.Pos(), "the miss built here is returned as its concrete type on all %d path(s)", h.Paths)
+		}
+	}
+	if n == 0 {
+		c.bad("missing-unwrapped", 0, "no function builds ChunkMissing or NoSuchObject")
+	}
+}
+
+func errResultOfFunc(fn *ssa.Function) int {
+	res := fn.Signature.Results()
+	for i := res.Len() - 1; i >= 0; i-- {
+		if isErrorType(res.At(i).Type()) {
+			return i
+		}
+	}
+	return -1
+}
